@@ -21,17 +21,21 @@ WORKBOOK = [
     ('S 2', [[('AF', ' =A1*2 '), 'eval(1)'], ['SUM(A1)', 'pad '], ['os.system("x") + ABS(1)', 'eval(1)'], [LONG, 7]]),
     ('Empty', []),
     ('Sparse', [[5, 6], [None, None], [0, False]]),
+    # a cell far below the rest of its sheet: every row in between exists and is blank
+    ('Gap', [['top', 1]] + [[None, None] for _ in range(1200)] + [['eval(3)', True]]),
 ]
 EXPECTED_DATA = [
     [[1, 'x', None], [0, False, ''], [None, None, 2.5]],
     [['=A1*2', 'eval(1)'], ['SUM(A1)', 'pad '], ['os.system("x") + ABS(1)', 'eval(1)'], [LONG, 7]],
     [],
     [[5, 6], [None, None], [0, False]],
+    [['top', 1]] + [[None, None] for _ in range(1200)] + [['eval(3)', True]],
 ]
-EXPECTED_TITLES = ['Data', 'S 2', 'Empty', 'Sparse']
+EXPECTED_TITLES = ['Data', 'S 2', 'Empty', 'Sparse', 'Gap']
 EXPECTED_SIZES = [{'last_column': 3, 'last_row': 3}, {'last_column': 2, 'last_row': 4}, {'last_column': 0, 'last_row': 0},
-                  {'last_column': 2, 'last_row': 3}]
-EXPECTED_SUSPICIOUS = {"'S 2'B1": ['eval(1)'], "'S 2'A3": ['system("x")'], "'S 2'B3": ['eval(1)'], "'S 2'A4": ['exec(2)']}
+                  {'last_column': 2, 'last_row': 3}, {'last_column': 2, 'last_row': 1202}]
+EXPECTED_SUSPICIOUS = {"'S 2'B1": ['eval(1)'], "'S 2'A3": ['system("x")'], "'S 2'B3": ['eval(1)'], "'S 2'A4": ['exec(2)'],
+                       "'Gap'A1202": ['eval(3)']}
 
 
 def _letters(n: int) -> str:
